@@ -3,6 +3,7 @@ import json
 import os
 import subprocess
 from lib.common import *
+from checks.rloop_common import run_rloop
 from checks.repair_common import scenarios_from_writer, pick
 
 
@@ -44,6 +45,15 @@ def main(tier):
     r = tlc("MCFaultGrammar", cfg, "c08-fg", workers=1, timeout=3000, heap="12g")
     ev["tlc"].append(dict(module="FaultGrammar", cfg=cfg, generated=r.generated, distinct=r.distinct, violation=r.violation))
     behs = r.prints["REPLAY"]
+    pairs_from = len(behs)
+    if tier == "thorough":
+        # thorough = the quick grammar (single mutations x histories of 3 operations) on every stacking
+        #          + pairs of mutations x histories of 2 operations, stackings rotating
+        rq = tlc("MCFaultGrammar", "FaultGrammar.quick.cfg", "c08-fgq", workers=1, timeout=3000, heap="12g")
+        ev["tlc"].append(dict(module="FaultGrammar", cfg="FaultGrammar.quick.cfg", generated=rq.generated, distinct=rq.distinct, violation=rq.violation))
+        pairs = [b for b in behs if len(b["muts"]) >= 2]
+        behs = rq.prints["REPLAY"] + pairs
+        pairs_from = len(rq.prints["REPLAY"])
     res, scens = scenarios_from_writer("Writer.scen.cfg", "c08-scen")
     rich = [s for s in scens if len(s["files"]) >= 2 and any(len(i["offs"]) >= 2 for i in s["hid"]["info"])]
     # ... one archive with an empty file, and (compression) one whose plaintext stream ends exactly on a block edge
@@ -55,9 +65,10 @@ def main(tier):
     jobs = []
     for bi, b in enumerate(behs):
         # quick: every behaviour once, stackings and archives rotating; thorough: every behaviour on every stacking
-        sts = stacks if tier == "thorough" else [stacks[bi % 4]]
+        every = tier == "thorough" and bi < pairs_from
+        sts = stacks if every else [stacks[bi % 4]]
         if any(m["f"].startswith("cfoot") or m["f"] == "cblock_data" for m in b["muts"]):
-            sts = [s for s in (["comp", "comp+enc"] if tier == "thorough" else [["comp", "comp+enc"][bi % 2]])]
+            sts = [s for s in (["comp", "comp+enc"] if every else [["comp", "comp+enc"][bi % 2]])]
         for st in sts:
             s = chosen[(bi + len(st)) % len(chosen)]
             if any(m["c"] == "stream_end" for m in b["muts"]) and aligned:
@@ -100,6 +111,8 @@ def main(tier):
             v.violation(rec, dict(engine="fault", profile="s20", rc=c["rc"], stderr=c["stderr"], job=job))
     log(f"[C08] FaultGrammar: {len(behs)} behaviours -> {len(jobs)} runs; {tot['runs']} completed, "
         f"{tot['op_ok']} operations ok, {tot['op_err']} returned an error/none")
+    # implementation-level model of the repair loop (spec/RepairLoop.tla): every behaviour replayed on convert_to_archive
+    run_rloop(v, "C08", tier, ev)
     cov = dict(states=r.distinct, transitions=r.generated, traces_validated_against_impl=tot["runs"],
                samples=samples[:3] or ["none"], behaviours_from_model=len(behs), operations_ok=tot["op_ok"],
                operations_err=tot["op_err"], tlc_runs=ev["tlc"], constants=consts, exhaustive=False,
@@ -107,6 +120,7 @@ def main(tier):
                     "(open, list, read all, hashes, linear extraction, repair in both modes, drop; also after errors) "
                     "enumerated by TLC, concretised with valid cryptography around the crafted plaintext; panics, process "
                     "deaths, time (10 s/op) and peak allocation (96 MiB + 64 x input) observed")
+    cov["repair_loop_model"] = ev.get("rloop")
     return v.finish("model_checking", cov, assumptions=[
         "structured mutations of the modelled fields; raw random bytes are explored by C03's bit flips/truncations only",
         "built with overflow-checks on, opt-level 2 (a tail-recursive call may be turned into a loop by the optimiser)"])
